@@ -70,6 +70,9 @@ def rname(rnd, kind):
     return ''.join(rnd.choice(NAME_ALPHA) for _ in range(n))
 
 
+_SEM = {}
+
+
 def rarg(rnd, spec, name, wtype, big=False):
     """A value the library accepts for this argument (send side)."""
     kind, fixed = constraint_of(spec, name)
@@ -79,6 +82,26 @@ def rarg(rnd, spec, name, wtype, big=False):
         return rname(rnd, kind)
     if wtype == 'bit':
         return rnd.random() < 0.5
+    # what these arguments hold in real traffic (a rule that consults the
+    # catalogue - "is this a known reply code / a known method?" - shows only
+    # for such values, and only when they occur together)
+    if name == 'reply_code' and rnd.random() < 0.6:
+        return rnd.choice(sorted(refspec.REPLY_CODES) + [200, 200, 0])
+    if name in ('class_id', 'method_id') and rnd.random() < 0.6:
+        _SEM.setdefault('pair', rnd.choice(sorted(refspec.METHODS)))
+        if name == 'class_id':
+            _SEM['pair'] = rnd.choice(sorted(refspec.METHODS))
+            return _SEM['pair'] >> 16
+        return _SEM['pair'] & 0xFFFF
+    if name == 'reply_text' and rnd.random() < 0.5:
+        code, (label, _hard) = rnd.choice(sorted(refspec.REPLY_CODES.items()))
+        r = rnd.randrange(5)
+        label = label if r == 0 else label.replace('-', '_') if r == 1 \
+            else label.lower() if r == 2 else label.title() if r == 3 \
+            else label
+        return label + rnd.choice(['', ' - no queue \'q\' in vhost \'/\'',
+                                   ' - ' + gv.rstr_bytes(rnd, 12, 'ascii'),
+                                   ': unknown delivery tag 7'])
     if wtype == 'octet':
         if rnd.random() < _boost(0.06):
             v = _magic().rint(rnd, 0, 255)
